@@ -132,30 +132,39 @@ def chain_requirements(ex, blocks, find, cls, callers, lt):
   """'<' is an order, so constraints compose: along x0 < x1 < ... < xk (k >= 2; the intermediate x_i are methods, taken up to
   their == classes, called by some block or by none) whatever stands for x0 (the block itself, or a block calling a method of
   its class) precedes whatever stands for xk.  Kept clear of the pass's documented "INVALID if explicit constraint" exemptions:
-  a calling block is only used when it occurs in no U/M constraint itself; chains from a block to a block are not demanded
+  a calling block is only used when it is not itself explicitly ordered against a method on the chain; chains from a block to a
+  block are not demanded
   (the pass derives nothing when no method of the chain is called)."""
   node = lambda x: ('b', x) if x in blocks else ('m', find(x))
-  adj = {}
-  for x, y in lt: adj.setdefault(node(x), set()).add(node(y))
-  constrained_blocks = {n for x, y in lt for n in (x, y) if n in blocks}
-  def stands_for(nd):
-    if nd[0] == 'b': return [(nd[1], None)]
-    return [(A, m) for m in cls(nd[1]) for A in callers.get(m, ()) if A not in constrained_blocks]
-  req = []
-  for s in sorted(adj):
-    src = stands_for(s)
-    if not src: continue
-    # nodes reachable from s through method classes only, with the length of the shortest such path
-    dist, frontier = {}, [(t, 1) for t in adj[s]]
+  adj, radj = {}, {}
+  for x, y in lt:
+    adj.setdefault(node(x), set()).add(node(y)); radj.setdefault(node(y), set()).add(node(x))
+  # block -> method classes it is explicitly ordered against (either direction)
+  against = {}
+  for x, y in lt:
+    if x in blocks and y not in blocks: against.setdefault(x, set()).add(find(y))
+    if y in blocks and x not in blocks: against.setdefault(y, set()).add(find(x))
+  def reach(s, g):
+    """{node: shortest number of edges} from s, walking through method classes only"""
+    dist, frontier = {}, [(t, 1) for t in g.get(s, ())]
     while frontier:
       t, k = frontier.pop(0)
       if t in dist or t == s: continue
       dist[t] = k
-      if t[0] == 'm': frontier += [(u, k + 1) for u in adj.get(t, ())]
-    for t, k in sorted(dist.items()):
+      if t[0] == 'm': frontier += [(u, k + 1) for u in g.get(t, ())]
+    return dist
+  def stands_for(nd, on_chain):
+    if nd[0] == 'b': return [(nd[1], None)]
+    return [(A, m) for m in cls(nd[1]) for A in callers.get(m, ()) if not (against.get(A, set()) & on_chain)]
+  req = []
+  for s in sorted(adj):
+    fwd = reach(s, adj)
+    for t, k in sorted(fwd.items()):
       if k < 2 or (s[0] == 'b' and t[0] == 'b'): continue
-      for A, xs in src:
-        for B, ys in stands_for(t):
+      back = reach(t, radj)
+      on_chain = {n[1] for n in fwd if n[0] == 'm' and (n in back or n == t)} | ({s[1]} if s[0] == 'm' else set())
+      for A, xs in stands_for(s, on_chain):
+        for B, ys in stands_for(t, on_chain):
           if A == B: continue
           why = ('chain', s[1], t[1], k)
           if xs is None: req.append(('um', A, (B, ys), why))
